@@ -1,6 +1,6 @@
 """Shared by the meaning-preservation checks (C01, C06, C16, C17, C05, C14): RuleCases enumeration, the `dlv sem`
 driver (independent parser on input and output, real darklua in between) and the TLC executor LuaEquiv."""
-import json, os, subprocess, sys
+import json, re, os, subprocess, sys
 import vlib
 from vlib import tlc, tlc_ok, dlv, write_ndjson, read_ndjson, log
 
@@ -14,13 +14,46 @@ def rules_text(names):
     return "[" + ", ".join(n if n.startswith("{") else "'%s'" % n for n in names) + "]"
 
 
-def rule_cases(group):
-    r = tlc("mc/MC_RuleCases", workers=4, timeout=900, env={"GROUP": group}, xmx="4g")
+def rule_cases(group, tier="quick"):
+    r = tlc("mc/MC_RuleCases", workers=4, timeout=1800, env={"GROUP": group, "TIER": tier}, xmx="6g")
     tlc_ok(r, "MC_RuleCases(%s)" % group)
     cs = r.tagged("CASE")
     if not cs:
         raise vlib.ToolError("MC_RuleCases(%s) emitted nothing" % group)
     return cs, r
+
+
+# which rules act on the shapes of a generated family (spec/darklua/RuleProducts.tla): routing only -- a configuration
+# containing one of these rules gets the whole family, any other configuration a sample of it
+FAMILY_RULES = {
+    "unused": {"remove_unused_variable", "remove_nil_declaration", "group_local_assignment", "remove_unused_if_branch", "compute_expression"},
+    "ifexpr": {"compute_expression", "remove_if_expression", "remove_unused_if_branch"},
+    "compound": {"remove_compound_assignment", "remove_floor_division", "remove_types", "remove_interpolated_string", "remove_if_expression"},
+    "method": {"remove_method_call", "remove_method_definition"},
+    "removed": {"remove_assertions", "remove_debug_profiling"},
+}
+
+
+def rule_name(r):
+    if isinstance(r, dict):
+        return r.get("rule", "")
+    r = str(r)
+    m = re.search(r"rule:\s*['\"]([a-z_]+)['\"]", r)
+    return m.group(1) if m else r.strip("'\" ")
+
+
+def enum_pool(enum, rules, everything, rng, other_sample=40):
+    """The enumerated cases a configuration receives: every hand-listed case; every member of the generated families its
+    rules act on (all families when `everything`); a seeded sample of the other families."""
+    names = set(rule_name(r) for r in rules)
+    out = []
+    for fam in [""] + sorted(FAMILY_RULES):
+        members = [c for c in enum if c.get("fam", "") == fam]
+        if fam == "" or everything or (FAMILY_RULES[fam] & names):
+            out += members
+        else:
+            out += rng.sample(members, min(other_sample, len(members)))
+    return out
 
 
 def equiv(wd, label, cases, chunk=3000, workers=12):
@@ -192,15 +225,14 @@ def run_property(pid, tier, group, cfgs, luau, env_for=None, nrand=(200, 3000), 
     import progen
     rep = vlib.Report(pid, tier, "translation_validation")
     rng = random.Random(vlib.seed())
-    enum, g = rule_cases(group)
+    enum, g = rule_cases(group, tier)
     n = nrand[0] if tier == "quick" else nrand[1]
     progs = [{"group": "random", "kind": "random", "ctx": 0, "redex": k, "body": "", "src": progen.program(rng, luau=luau, max_stmts=rng.randint(6, 18))} for k in range(n)]
     cases, rules_of = [], {}
     pc = per_cfg[0] if tier == "quick" else per_cfg[1]
     for ci, (label, rules, gen) in enumerate(cfgs(tier, rng)):
-        pool = enum + progs if label in full_labels else enum + rng.sample(progs, min(len(progs), max(0, pc - len(enum))))
-        if len(pool) > pc and label not in full_labels:
-            pool = rng.sample(pool, pc)
+        ep = enum_pool(enum, rules, label in full_labels, rng)
+        pool = ep + progs if label in full_labels else ep + rng.sample(progs, min(len(progs), max(20, pc - len(ep))))
         for pi, p in enumerate(pool):
             cid = "c%d_%d" % (ci, pi)
             c = {"id": cid, "src": p["src"], "rules": rules_text(rules), "generator": gen, "cfg": label,
